@@ -230,14 +230,14 @@ def hll_cpc_bound_shapes(facts):
     for pat, fn in sorted(hf.items()):
         rect = fn.get("rect") or ""
         if rect == "datasketches::HllArray" and fn["name"] in ("getLowerBound", "getUpperBound"):
-            inl = {d: v["init"] for d, v in local_decls(fn).items() if v.get("init") is not None}
+            from astu import single_assignment_locals
+            inl = single_assignment_locals(fn)   # independent of which sub-expressions are hoisted into named locals
             r = returns_of(fn)
-            t = txt(r[0]["e"]).replace(" ", "") if r else "?"
-            rel = [v for v in local_decls(fn).values() if v["n"] == "relErr"]
-            relt = txt(rel[0]["init"]).replace(" ", "") if rel else "?"
+            t = txt(r[0]["e"], inl).replace(" ", "") if r else "?"
             upper = fn["name"] == "getUpperBound"
+            relt = "see bound"
             key = "HllArray::%s:formula" % fn["name"]
-            ok = "(getEstimate()/(1+relErr))" in t and relt.startswith("getRelErr(%s," % ("true" if upper else "false")) and any(txt(s.get("e")).startswith("checkNumStdDev(") for s in stmts_of(fn["body"]) if s.get("k") == "Expr")
+            ok = ("(getEstimate()/(1+getRelErr(%s," % ("true" if upper else "false")) in t and any(txt(s.get("e")).startswith("checkNumStdDev(") for s in stmts_of(fn["body"]) if s.get("k") == "Expr")
             if ok:
                 out.append(ob("bounds.shape", key, fn["pat"], "discharged", "estimate / (1 + relErr) with relErr from the %s table (negative for upper, positive for lower), numStdDev validated" % ("upper" if upper else "lower"), fn["qname"]))
             else:
